@@ -370,6 +370,8 @@ def run_proofs(ctx):
                "distinct atoms, reduced only where the factor spans the intercept (its body - itertools.product over tuples of mixed arity - is bounded only)")
     run_contracts(ctx, cs, reg, workloads=workloads(), concrete_env=_concrete_env())
     reg2, cs2 = build_loop()
+    ctx.trust("assumed contract: FormulaMaterializer._get_scoped_terms_spanned_by_evaled_factors (returns duplicate-free atomic scoped terms - cover = one atom - with pairwise "
+              "distinct atoms, reduced only where the factor spans the intercept; body enumerates itertools.product: bounded only)")
     run_contracts(ctx, cs2, reg2, workloads=workloads(), concrete_env=_concrete_env())
 
 
